@@ -86,6 +86,27 @@ func runK5(r *rng, n int) {
 			add(110, map[string]interface{}{"fid": uint64(2), "newFID": uint64(6), "Names": []string{"c", "a"}})
 			add(116, map[string]interface{}{"fid": uint64(4), "Offset": uint64(0), "Count": uint64(64)})
 			add(26, map[string]interface{}{"fid": uint64(5)})
+		} else if r.chance(1, 3) {
+			// a file open for writing is unlinked and its name taken by a new file; then the old fid is
+			// truncated / touched / chmod-ed: fenced, whatever the mask (the path names another object now)
+			add := func(t uint8, v map[string]interface{}) {
+				prelude = append(prelude, struct {
+					t uint8
+					v map[string]interface{}
+				}{t, v})
+			}
+			fl := uint64(1 + r.intn(2))
+			add(110, map[string]interface{}{"fid": uint64(0), "newFID": uint64(1), "Names": []string{}})
+			add(14, map[string]interface{}{"fid": uint64(1), "Name": "a", "OpenFlags": fl, "Permissions": uint64(0644)})
+			add(76, map[string]interface{}{"Directory": uint64(0), "Name": "a", "Flags": uint64(0)})
+			add(110, map[string]interface{}{"fid": uint64(0), "newFID": uint64(2), "Names": []string{}})
+			add(14, map[string]interface{}{"fid": uint64(2), "Name": "a", "OpenFlags": uint64(2), "Permissions": uint64(0644)})
+			for k := 0; k < 3; k++ {
+				add(26, setattrVals(r, 1))
+			}
+			add(26, map[string]interface{}{"fid": uint64(1), "Valid.Size": true})
+			add(24, map[string]interface{}{"fid": uint64(2)})
+			add(24, map[string]interface{}{"fid": uint64(1)})
 		}
 		paths := []map[uint64][]string{{}, {}} // per connection: a guess of each fid's path (stale after renames)
 		for i := 0; i < steps && done < n; i++ {
@@ -195,7 +216,7 @@ func runK5(r *rng, n int) {
 				default:
 					switch r.intn(6) {
 					case 0:
-						t, v = 26, map[string]interface{}{"fid": fid()}
+						t, v = 26, setattrVals(r, fid())
 					case 1:
 						t, v = 16, map[string]interface{}{"Directory": fid(), "Name": name(), "Target": "t"}
 					case 2:
@@ -225,7 +246,7 @@ func runK5(r *rng, n int) {
 						f := gone[r.intn(len(gone))]
 						switch r.intn(17) {
 						case 0:
-							t, v = 26, map[string]interface{}{"fid": f}
+							t, v = 26, setattrVals(r, f)
 						case 1:
 							t, v = 22, map[string]interface{}{"fid": f}
 						case 2:
@@ -332,4 +353,30 @@ func runK5(r *rng, n int) {
 		}
 		emit("k4end panics=0 => %s", be.lifecycle())
 	}
+}
+
+// setattrVals: Tsetattr in the shapes clients send – nothing, a truncate (size, maybe times), a chmod,
+// a chown, a utimes, everything.
+func setattrVals(r *rng, f uint64) map[string]interface{} {
+	v := map[string]interface{}{"fid": f}
+	switch r.intn(7) {
+	case 0:
+	case 1:
+		v["Valid.Size"] = true
+		v["SetAttr.Size"] = uint64(r.intn(3))
+	case 2:
+		v["Valid.Size"], v["Valid.MTime"], v["Valid.CTime"] = true, true, true
+	case 3:
+		v["Valid.Permissions"] = true
+		v["SetAttr.Permissions"] = uint64(0600)
+	case 4:
+		v["Valid.UID"], v["Valid.GID"] = true, true
+	case 5:
+		v["Valid.ATime"], v["Valid.MTime"], v["Valid.ATimeNotSystemTime"] = true, true, true
+	default:
+		for _, k := range []string{"Permissions", "UID", "GID", "Size", "ATime", "MTime", "CTime"} {
+			v["Valid."+k] = r.chance(1, 2)
+		}
+	}
+	return v
 }
